@@ -149,6 +149,7 @@ func parse(b *Batch, body []byte, cuts []int) *parsed {
 }
 
 type stored struct {
+	tbl        *tracesTable
 	traces     []traceRow
 	tags       []tagRow
 	traceTypes map[string]string
@@ -287,7 +288,10 @@ func asI64(v any) int64 {
 // readBack presents the stored trace rows to the real TempoService.Query for one trace id (hex as it appears in
 // the URL of GET /api/traces/{traceId}).
 func readBack(st *stored, traceHex string) (spans []*rmodel.SpanResponse, queries []string, err error) {
-	tbl := &tracesTable{rows: st.traces}
+	if st.tbl == nil {
+		st.tbl = &tracesTable{rows: st.traces} // one interpreter database per case
+	}
+	tbl := st.tbl
 	db := sql.OpenDB(&connector{tbl})
 	defer db.Close()
 	svc := rservice.NewTempoService(rmodel.ServiceData{Session: &fakeRegistry{&fakeSession{db}}})
